@@ -227,7 +227,7 @@ def check(case, ctx):
                 jobs.append(("chained a.take(idx, axis=d)", chain))
         for label, fn in jobs:
             full_label = "%s with t=%s" % (label, codec.short(t, 200))
-            res, exc = ctx.call(full_label, fn, operands=(a,), meta='carry')
+            res, exc = ctx.call(full_label, fn, operands=(a,) + common.array_args(t), meta='carry')
             ctx.outcomes['spellings-compared'] += 1
             if exp_exc is not None:
                 if wrong and exc is not None and isinstance(exc, (TypeError, IndexError)):
@@ -264,7 +264,7 @@ def check(case, ctx):
                 pj.append(("a[p] (option=position)", lambda: a[psingle]))
             for label, fn in pj:
                 full_label = "%s with p=%s" % (label, codec.short(pt, 200))
-                res, exc = ctx.call(full_label, fn, operands=(a,), meta='carry')
+                res, exc = ctx.call(full_label, fn, operands=(a,) + common.array_args(pt), meta='carry')
                 ctx.outcomes['spellings-compared'] += 1
                 common.expect(ctx, ID, "pos", full_label, res, exc, exp=exp)
     if not nontriv:
